@@ -74,8 +74,55 @@ def trace_lit(t):
 
 
 # ---- implementation side --------------------------------------------------------------------------
+DERIVED = []        # (description, problem): derived accessors that disagree with the frequency/impedance views
+
+
+def derived_views(d):
+    """get_magnitudes / get_phases / get_num_points / get_nyquist_data / get_bode_data / to_dataframe and DataSet.average are
+    functions of the (f, Z) views for the same `masked` argument; checked here against numpy on those views"""
+    import numpy as np
+    from pyimpspec import DataSet
+    for m in (None, False, True):
+        f, Z = d.get_frequencies(masked=m), d.get_impedances(masked=m)
+        pr = None
+        if d.get_num_points(masked=m) != len(Z):
+            pr = "get_num_points"
+        elif not np.array_equal(d.get_magnitudes(masked=m), abs(Z)):
+            pr = "get_magnitudes"
+        elif not np.array_equal(d.get_phases(masked=m), np.angle(Z, deg=True)):
+            pr = "get_phases"
+        else:
+            re_, im_ = d.get_nyquist_data(masked=m)
+            fb, mag, ph = d.get_bode_data(masked=m)
+            if not (np.array_equal(re_, Z.real) and np.array_equal(im_, -Z.imag)):
+                pr = "get_nyquist_data"
+            elif not (np.array_equal(fb, f) and np.array_equal(mag, abs(Z)) and np.array_equal(ph, -np.angle(Z, deg=True))):
+                pr = "get_bode_data"
+            else:
+                df = d.to_dataframe(masked=m)
+                cols = list(df.columns)
+                if len(df) != len(Z) or not (np.array_equal(df[cols[0]].to_numpy(), f) and np.array_equal(df[cols[1]].to_numpy(), Z.real)
+                                             and np.array_equal(df[cols[2]].to_numpy(), Z.imag)):
+                    pr = "to_dataframe"
+        if pr:
+            DERIVED.append(("masked=%r" % m, "%s disagrees with the frequency/impedance views" % pr))
+            return
+    before = json.dumps(d.to_dict(), sort_keys=True, default=str)
+    avg = DataSet.average([d, d])
+    if not (np.array_equal(avg.get_frequencies(masked=None), d.get_frequencies(masked=None))
+            and np.array_equal(avg.get_impedances(masked=None), d.get_impedances(masked=None))):
+        DERIVED.append(("average([d, d])", "the average of a data set with itself is not that data set's full spectrum"))
+    elif json.dumps(d.to_dict(), sort_keys=True, default=str) != before:
+        DERIVED.append(("average([d, d])", "average modified its input"))
+
+
 def observe(d, ok=True, second=True):
     import numpy as np
+    if len(DERIVED) < 5:
+        try:
+            derived_views(d)
+        except Exception as e:  # noqa
+            DERIVED.append(("derived accessors", "raised %s: %s" % (type(e).__name__, str(e)[:100])))
     # the masked= argument is a numpy boolean for data sets with an odd number of points (accepted; must mean the same)
     T, F_ = (np.True_, np.False_) if d.get_num_points(masked=None) % 2 == 1 else (True, False)
     return {"ok": ok,
@@ -328,6 +375,9 @@ def run(rep, tier, seed, tr_errors):
     rep.oblige("correspondence:DataSet.v-vs-data_set.py", not mism and not broken,
                "%d cases, %d mismatches, %d shards failed" % (len(indexed), len(mism), len(broken)))
     rep.oblige("property-on-observed-traces", not viol and not broken, "%d traces differ from the reference model" % len(viol))
+    rep.oblige("derived-accessors-and-average-agree-with-the-views", not DERIVED, "%d problems" % len(DERIVED))
+    for n_, (what, prb) in enumerate(DERIVED[:3]):
+        rep.violation("derived_%d" % n_, {"kind": "counterexample", "obligation": "derived accessors are functions of the (f, Z) views", "input": {"accessor": what, "problem": prb}})
     rep.extra["traces_validated_against_impl"] = len(indexed)
     by = {i: (c, t) for i, c, t in indexed}
     for i in sorted(set(viol))[:4]:
